@@ -601,11 +601,20 @@ class SInt:
         # '%x' % value inside a function whose text output is not part of the
         # claim: the rendered text is a placeholder
         e.notes['format_placeholder_used'] = True
+        e.notes.setdefault('format_args', []).append(self.t)
         return 0
     return e.concretize(self.t, 'index')
 
   def __int__(self):
-    return eng().concretize(self.t, 'int()')
+    e = eng()
+    fmt = e.notes.get('format_placeholder_in')
+    if fmt:
+      import sys  # pylint: disable=g-import-not-at-top
+      if sys._getframe(1).f_code.co_name in fmt:
+        e.notes['format_placeholder_used'] = True
+        e.notes.setdefault('format_args', []).append(self.t)
+        return 0
+    return e.concretize(self.t, 'int()')
 
   def bit_length(self):
     return SBitLen(self)
